@@ -26,25 +26,47 @@ class FaultPlan:
 
 
 class _File:
+    """File object handed to the code under test.
+
+    Models the three places data can be: the process's own write buffer (lost whenever the
+    process dies), the kernel's page cache (`written`; survives a process crash, lost on power
+    loss unless fsync'ed) and the disk (`synced`). write() only fills the user buffer - like
+    Python's BufferedWriter it spills to the kernel when it exceeds 8 KiB; flush() hands the
+    buffer to the kernel; fsync (see _OS.fsync) makes what the kernel has durable; close()
+    flushes.
+    """
+
+    BUFFER = 8192
+
     def __init__(self, layer, real, path, mode):
         self._layer = layer
         self._real = real
         self._path = path
         self._mode = mode
+        self._ubuf = []
+        self._usize = 0
         self.closed = False
+
+    def _spill(self):
+        for chunk in self._ubuf:
+            self._real.write(chunk)
+        self._ubuf, self._usize = [], 0
+        self._real.flush()
+        st = self._layer.files[self._path]
+        st["written"] = _os.path.getsize(self._path)
 
     def write(self, data):
         def do():
-            n = self._real.write(data)
-            self._real.flush()  # make the bytes visible to the harness; durability is modelled
-            st = self._layer.files[self._path]
-            st["written"] = _os.path.getsize(self._path)
-            return n
+            self._ubuf.append(data)
+            self._usize += len(data)
+            if self._usize > self.BUFFER:
+                self._spill()
+            return len(data)
 
         return self._layer.op("write", self._path, do, size=len(data))
 
     def flush(self):
-        return self._layer.op("flush", self._path, self._real.flush)
+        return self._layer.op("flush", self._path, self._spill)
 
     def fileno(self):
         self._layer.fd_paths[self._real.fileno()] = self._path
@@ -56,6 +78,7 @@ class _File:
         self.closed = True
 
         def do():
+            self._spill()
             self._real.close()
 
         try:
@@ -80,8 +103,9 @@ class _File:
         return self
 
     def __exit__(self, *exc):
-        # a crash leaves the descriptor to the (dead) process; the harness closes it
+        # a crash: whatever is still in the process's buffer is gone; the harness closes the fd
         if exc and exc[0] is not None and issubclass(exc[0], Crash):
+            self._ubuf, self._usize = [], 0
             if not self._real.closed:
                 self._real.close()
             return False
